@@ -1,4 +1,5 @@
 import CsVerif.Model.C11
+import CsVerif.Model.C11Gen
 import CsVerif.Driver.C10
 /-! Line-protocol driver for the C11 model.
 
@@ -20,6 +21,13 @@ Operations
 * `both x<text> <calls> E`  the same profile as text and as builder calls
 * `hist <tree> (| op)*`     modify / access history on one profile object
 * `v2s <val>`               `value_to_string`
+* `gwalk` / `gsrc` / `gtree` / `ghist` …   (streams `g-*`) the same case run through the definitions TRANSLATED from the source of
+                            `C2Profile.as_dict` (Gen/PyC2Dict.lean: `as_dict_walk`, `as_dict`) and of `string_token_to_bytes`
+                            (Gen/PyC2Prof.lean); the Reconstructor is the model's `printItems`, `hash(tree)` the tree itself
+* `gbuild <calls> E`        the builder calls run through the TRANSLATED methods of `ConfigBlock`, `C2Profile`, `DataTransformBlock`, the
+                            bodies of `from_execute_list` / `from_beacon_gate_option_strings`: the tree
+* `garg dict <value>`       the translated `as_dict` with the Reconstructor answering an arbitrary value (notation of PyUShow.lean)
+* `pyu <op> <operands>`     one operation of the run-time library added for this unit (Model/PyU_T11.lean)
 -/
 namespace C11
 open Proto C10
@@ -281,7 +289,157 @@ def histOut (t : Tree) (ops : List Op) : String :=
   let rs := runHist (H := Tree) id (asDictTree G LP) (PState.fresh t) ops
   " | ".intercalate (rs.map showOutcome) ++ " || fresh=" ++ String.ofList (List.replicate rs.length 'T')
 
-def driverStep : List String → String
+/-! ### `g-*` streams: the definitions translated from the source -/
+
+/-- the type name of the tokens that are not STRING tokens (the grammar has one more named terminal) -/
+def tyOpt : Text → Text := fun _ => PyU.cps "OPTION"
+
+def showVAtom : PyU.V → String
+  | .str s => "s" ++ showText s
+  | .bytes b => "b" ++ showBytes b
+  | .inst c [_, .str s] => if c.cid == Gen.PyC2Prof.Token.cid then "T" ++ showText s else "?atom"
+  | _ => "?atom"
+
+def showVValue : PyU.V → List String
+  | .tuple xs => s!"t{xs.length}" :: xs.map showVAtom
+  | v => [showVAtom v]
+
+def showVEntries : List PyU.V → List PyU.V → List String
+  | .str k :: ks, .list vs :: rest => (s!"K{showText k}:{vs.length}" :: vs.flatMap showVValue) ++ showVEntries ks rest
+  | [], [] => []
+  | _, _ => ["?dict"]
+
+/-- a dictionary (a `dict`, or the `defaultdict` the walk builds) in the notation of `showDict` -/
+def showVDict : PyU.V → String
+  | .dict ks vs => " ".intercalate ("ok" :: showVEntries ks vs)
+  | .inst c [.dict ks vs] => if c.cid == PyU.t11DdCls.cid then " ".intercalate ("ok" :: showVEntries ks vs) else "?dict"
+  | _ => "?dict"
+
+def showOutcomeG : Option (Py PyU.V) → String
+  | none => "none"
+  | some (.error e) => "exc " ++ e.name
+  | some (.ok d) => showVDict d
+
+/-- the translated walk over the items of a tree -/
+def dictOfTreeG (t : Tree) : String :=
+  showOutcomeG ((printItems G t).map (C11Gen.asDictWalkG tyOpt))
+
+/-- a tree as a Python value: the text of its line notation; `hash(tree)` is that value itself -/
+def encTreeV (t : Tree) : PyU.V := .str ((showTree t).toList.map Char.toNat)
+
+def treeOfV : PyU.V → Option Tree
+  | .str cs => readTree ((String.ofList (cs.map Char.ofNat)).splitOn " ")
+  | _ => none
+
+/-- `Reconstructor(c2profile_parser)._reconstruct(tree)`: the model's items; an unprintable tree is answered with a KeyError
+(shown as `none`, see `histOutG`) -/
+def reconG (v : PyU.V) : Py PyU.V :=
+  match treeOfV v with
+  | some t =>
+    match printItems G t with
+    | some items => .ok (C11Gen.encItems tyOpt items)
+    | none => .error .keyError
+  | none => .error .keyError
+
+/-- the translated method with its external functions -/
+def asDictG (obj : PyU.V) : Py PyU.V :=
+  Gen.PyC2Dict.as_dict (fun v => .ok v) reconG (C11Gen.stbG 4000) obj
+
+def histOutG (t : Tree) (ops : List Op) : String :=
+  let rs := C11Gen.runHistG encTreeV asDictG t (C11Gen.profileV (encTreeV t) (.dict [] []) .none) ops
+  -- the walk itself can raise KeyError only through the Reconstructor stand-in
+  let one : Py PyU.V → String := fun r => match r with
+    | .error .keyError => "none"
+    | r => showOutcomeG (some r)
+  " | ".intercalate (rs.map one) ++ " || fresh=" ++ String.ofList (List.replicate rs.length 'T')
+
+def classesG : List PyU.Cls := [Gen.PyC2Prof.Token, Gen.PyC2Prof.StringIteratorCls, PyU.t11DdCls, Gen.PyC2Dict.C2ProfileCls]
+
+def vTokG (s : String) : Option PyU.V := PyU.vTok (fun _ => none) (fun cid => classesG.find? (·.cid == cid)) s
+
+def showB (b : Bool) : String := if b then "T" else "F"
+
+open PyU in
+def pyuStep : List String → String
+  | [op, a] =>
+    match vTokG a with
+    | none => "bad-op"
+    | some a =>
+      match op with
+      | "t11str" => showPy vShow (t11StrOf Gen.PyC2Prof.Token a)
+      | "t11tuple" => showPy vShow (t11TupleOf Gen.PyC2Prof.Token a)
+      | "t11repr" => showPy vShow (t11ReprV Gen.PyC2Prof.Token a)
+      | "t11pop" => showPy (fun p => vShow (.tuple [p.1, p.2])) (t11Pop a)
+      | "t11dict" => showPy vShow (t11DictOf a)
+      | _ => "bad-op"
+  | [op, a, b] =>
+    match vTokG a, vTokG b with
+    | some a, some b =>
+      match op with
+      | "t11eq" => "ok " ++ showB (t11Eq Gen.PyC2Prof.Token a b)
+      | "t11in" => showPy showB (t11Contains Gen.PyC2Prof.Token a b)
+      | "t11join" => showPy vShow (t11Join Gen.PyC2Prof.Token a b)
+      | "t11extend" => showPy vShow (t11Extend Gen.PyC2Prof.Token a b)
+      | _ => "bad-op"
+    | _, _ => "bad-op"
+  | [op, a, b, c] =>
+    match vTokG a, vTokG b, vTokG c with
+    | some a, some b, some c =>
+      match op with
+      | "t11ddappend" => showPy vShow (t11DdAppend a b c)
+      | _ => "bad-op"
+    | _, _, _ => "bad-op"
+  | _ => "bad-op"
+
+def gstep : List String → Option String
+  | "gwalk" :: ws =>
+    match ws.mapM itemTok with
+    | none => some "bad-op"
+    | some items => some (showOutcomeG (some (C11Gen.asDictWalkG tyOpt items)))
+  | ["gsrc", s] =>
+    match textTok s with
+    | none => some "bad-op"
+    | some src =>
+      match parseText G src with
+      | .fail => some "exc LarkError"
+      | .fuel => some "fuel"
+      | .ok d => some (dictOfTreeG (toTree d))
+  | "gtree" :: ws =>
+    match readTree ws with
+    | none => some "bad-op"
+    | some t => some (dictOfTreeG t)
+  | "ghist" :: ws =>
+    match splitBar ws with
+    | tw :: opws =>
+      match readTree tw with
+      | none => some "bad-op"
+      | some t =>
+        let ops := opws.map readOp
+        if ops.any (fun o => match o with | .bad => true | _ => false) then some "bad-op"
+        else some (histOutG t (ops.filterMap fun o => match o with | .op x => some x | .bad => none))
+    | [] => some "bad-op"
+  | "gbuild" :: ws =>
+    match readAllCalls ws with
+    | none => some "bad-op"
+    | some c =>
+      match C11Gen.buildProfileG API c with
+      | .error e => some ("exc " ++ e.name)
+      | .ok obj =>
+        match C11Gen.absTreeOf G obj with
+        | some t => some s!"tree {showTree t}"
+        | none => some "?tree"
+  | ["garg", "dict", a] =>
+    match vTokG a with
+    | none => some "bad-op"
+    | some v =>
+      let r := Gen.PyC2Dict.as_dict (fun _ => .ok (.int 1)) (fun _ => .ok v) (C11Gen.stbG 4000) (C11Gen.profileV .none (.dict [] []) .none)
+      some (showPy (fun x => match x with
+        | .tuple [d, _] => PyU.vShow d
+        | other => "?" ++ PyU.vShow other) r)
+  | "pyu" :: rest => some (pyuStep rest)
+  | _ => none
+
+def driverStepM : List String → String
   | ["src", s] =>
     match textTok s with
     | none => "bad-op"
@@ -321,5 +479,10 @@ def driverStep : List String → String
     | some x => showText (valueToString x)
     | none => "bad-op"
   | _ => "bad-op"
+
+def driverStep (ws : List String) : String :=
+  match gstep ws with
+  | some r => r
+  | none => driverStepM ws
 
 end C11
